@@ -101,8 +101,8 @@ CLAIM = {
             "grammars; every real automaton is also judged directly by the reference run against the real tuple sets (all strings up to depth+1).",
     "design_ref": "DESIGN.md §6 C07 (and C24 for order independence)",
     "note": "The theorems speak about successful results of the model (it returns none/error where the Rust code would panic or report a conflict); "
-            "that the model succeeds on accepted inputs is shown by examples and observed on every explored case (model reply = implementation reply), "
-            "not proved in general. Trusted: Lean kernel (propext, Quot.sound, Classical.choice), faithfulness of the hand-written model as observed by "
+            "for the uniting loop success on accepted inputs is proved up to the model's fuel (unite_no_false_conflict); for the minimisation it is "
+            "shown by examples and observed on every explored case (model reply = implementation reply), not proved in general. Trusted: Lean kernel (propext, Quot.sound, Classical.choice), faithfulness of the hand-written model as observed by "
             "the differential run, harness and orchestrator, and that generate_parser_export_model copies CompiledDFA unchanged. Observation outside the "
             "property's hypotheses: on automata with accepting inner states of several productions the real minimize is hash-order dependent "
             "(Neighbors::append deduplicates, rename_neighbor does not); such automata cannot arise from prefix-free tuple sets.",
